@@ -1,7 +1,9 @@
 import Mieru.Proofs.StreamWire
 import Mieru.Proofs.Fragment
+import Mieru.Proofs.TcpSessionWire
 import Mieru.Gen.Consts
 import Mieru.Gen.Arith
+import Mieru.Gen.Wire
 /-!
 # C01 — TCP transport: every byte delivered exactly once, in order, to the right session
 
@@ -163,5 +165,385 @@ example : seg1.wf toyCodec ∧ seg2.wf toyCodec := by
 /-- the two segments, sent back to back and delivered one byte at a time, are decoded exactly -/
 example : ((encodeAll toyAead toyCodec 5 [seg1, seg2]).map (fun b => [b])).foldl (feed toyAead toyCodec 1) ⟨5, [], [], false⟩
     = ⟨8, [], [(seg1.md, seg1.payload), (seg2.md, seg2.payload)], false⟩ := by decide +kernel
+
+/-! # The property's own sentence, composed
+
+`Mieru.Model.TcpSession` is the session layer of the stream transport (`Session.Write` with the
+open-request piggyback and the low-entropy decisions, `writeChunk`'s numbering, `Close`, the in-order
+check of `inputData`, `Session.Read` with the unread tail, the attached → established → closed state
+machine); `wrap` is what `writeOneSegment` adds; the wire in between is the DOCUMENTED one
+(`Mieru.Model.Spec`: the three metadata layouts, the nonce sent once then incremented per encryption,
+candidate keys on the first segment, low-entropy bodies) over any AEAD that is lawful on 32-byte keys
+and 24-byte nonces.  The theorems below chain: application calls → queued segments → wrapped
+segments → any order-preserving interleaving with other sessions' segments on the same connection →
+sealed byte stream → any chunking by the network → reference receiver → demultiplexing by session id
+→ in-order check → receive queue → `Read` calls of any sizes interleaved in any way with the
+arrivals.  Conclusion: bytes read ++ bytes still pending = bytes of the `Write` calls that returned
+success — nothing lost, duplicated, altered or taken from another proxy connection. -/
+
+open Mieru.TcpSession in
+/-- **One direction of one proxy connection, end to end** (the two instances follow).
+    The sender has already queued `first` (nothing for a client; the open-session response for a
+    server) and is open in state `s0`; `ops` are its application's `Write` / `Close` calls (any sizes,
+    any low-entropy decisions); `ws` the underlay's stamps, paddings (0..255 bytes each) and masks;
+    `others` the segments of other sessions sharing the TCP connection; `chunks` the way the network
+    cut the byte stream; `r0` the peer session before it received anything; `es` any schedule of
+    arrivals and `Read` calls (any buffer sizes) at the peer. -/
+theorem tcp_direction_end_to_end (A : Spec.AeadFns) (hA : Spec.AeadLaws32 A) (fromClient : Bool)
+    (sid : Nat) (hsid : sid < 2 ^ 32)
+    (first : List TcpSession.Seg) (s0 : Sess) (hs0 : s0.open) (hs0n : s0.nextSend = first.length)
+    (hfirst : first.map (·.seq) = List.range' 0 first.length)
+    (hfirst2 : ∀ g ∈ first, g.lawful ∧ dataish g.kind ∧ g.payload = [])
+    (ops : List Op) (hcount : (first ++ (run s0 ops).1).length ≤ 2 ^ 32)
+    (ws : List Wrap) (hwl : ws.length = (first ++ (run s0 ops).1).length)
+    (hws : ∀ p ∈ (first ++ (run s0 ops).1).zip ws, p.2.ok p.1.le)
+    (mine : List (Spec.Segment × Bool)) (hmine : wrapAll fromClient sid (first ++ (run s0 ops).1) ws = some mine)
+    (others l : List (Spec.Segment × Bool))
+    (ho : ∀ x ∈ others, x.1.wf ∧ TcpSession.Spec.Meta.sessionID x.1.md ≠ sid) (hm : Merge mine others l)
+    (t : Spec.Tx) (hk : t.key.length = 32) (hn : t.nonce.length = 24) (cands : List Bytes)
+    (hc : ∀ k ∈ cands, k.length = 32) (hsync : Spec.InSyncFor A t (Spec.Rx.new cands) (Spec.firstMeta l))
+    (bytes : Bytes) (hs : Spec.sealAll A t l = some bytes) (chunks : List Bytes) (hch : chunks.flatten = bytes)
+    (r0 : Sess) (hr1 : r0.nextRecv = 0) (hr2 : r0.pending = []) (hr3 : r0.st ≠ .closed)
+    (hr4 : r0.closeRequested = true → r0.st = .closed) (hr5 : r0.inErr = false)
+    (es : List Ev)
+    (harr : arrivals es = TcpSession.forSession sid (chunks.foldl (Spec.feed A) (Spec.Rx.new cands)).out) :
+    (chunks.foldl (Spec.feed A) (Spec.Rx.new cands)).dead = none ∧
+    TcpSession.forSession sid (chunks.foldl (Spec.feed A) (Spec.Rx.new cands)).out = first ++ (run s0 ops).1 ∧
+    (runEv r0 es).1.flatten ++ (runEv r0 es).2.pending = accepted s0 ops ∧
+    (runEv r0 es).2.inErr = false ∧
+    ((∃ g ∈ (run s0 ops).1, g.kind = .closeReq) → (runEv r0 es).2.st = .closed) := by
+  obtain ⟨r1, r2, r3⟩ := run_spec s0 ops
+  have hseqs : (first ++ (run s0 ops).1).map (·.seq) = List.range' 0 (first ++ (run s0 ops).1).length := by
+    rw [List.map_append, List.length_append, hfirst, r2, hs0n, ← List.range'_append_1]; simp
+  obtain ⟨c1, _, c3⟩ := session_stream_core A hA fromClient sid hsid (first ++ (run s0 ops).1)
+    (fun g hg => by
+      rw [List.mem_append] at hg
+      rcases hg with hg | hg
+      · exact (hfirst2 g hg).1
+      · exact run_lawful _ _ g hg) hseqs hcount ws hwl hws mine hmine others l ho hm t hk hn cands hc hsync
+    bytes hs chunks hch
+  rw [c3] at harr
+  obtain ⟨ds, tail, e1, e2, e3⟩ := run_shape s0 ops hs0
+  have hseqds : (first ++ ds).map (·.seq) = List.range' r0.nextRecv (first ++ ds).length := by
+    have := hseqs
+    rw [e1, ← List.append_assoc, List.map_append, List.length_append, ← List.range'_append_1] at this
+    rw [hr1]
+    exact (List.append_inj this (by simp)).1
+  have htailp : (tail.map (·.payload)).flatten = [] := by
+    rcases e3 with h | ⟨c, h, hc'⟩
+    · simp [h]
+    · have hmem : c ∈ (run s0 ops).1 := by rw [e1, h]; simp
+      rw [h]
+      simp [closeReq_payload _ _ c hmem hc']
+  have hfirstp : (first.map (·.payload)).flatten = [] := by
+    rw [List.flatten_eq_nil_iff]
+    intro x hx
+    rw [List.mem_map] at hx
+    obtain ⟨g, hg, rfl⟩ := hx
+    exact (hfirst2 g hg).2.2
+  obtain ⟨s1, s2, s3⟩ := runEv_spec_close r0 es (first ++ ds) tail (by rw [harr, e1, List.append_assoc]) e3 hr3 hr4
+    (fun g hg => by
+      rw [List.mem_append] at hg
+      rcases hg with hg | hg
+      · exact (hfirst2 g hg).2.1
+      · exact e2 g hg) hseqds
+  refine ⟨c1, c3, ?_, s3.trans hr5, ?_⟩
+  · rw [s1, hr2, ← r1, e1, List.map_append, List.map_append, List.flatten_append, List.flatten_append, htailp, hfirstp]
+    simp
+  · rintro ⟨g, hg, hgk⟩
+    apply s2
+    rw [e1, List.mem_append] at hg
+    rcases hg with hg | hg
+    · have := e2 g hg
+      rw [hgk] at this
+      simp [dataish] at this
+    · intro h; rw [h] at hg; simp at hg
+
+open Mieru.TcpSession in
+/-- **Client → server.**  A fresh client session (ATTACHED: it becomes ESTABLISHED only when its
+    application first reads) runs any program of `Write` / `Close` calls; the server session is the
+    one the underlay created for the open request.  Everything the client wrote successfully — also
+    what it wrote without ever calling `Read` and then closed — reaches the server application:
+    read bytes ++ pending bytes = written bytes, whatever the paddings, the low-entropy choices, the
+    other sessions on the connection, the chunking and the schedule of arrivals and reads; and the
+    server session is closed behind the last byte iff the client closed. -/
+theorem tcp_client_to_server_end_to_end (A : Spec.AeadFns) (hA : Spec.AeadLaws32 A)
+    (sid : Nat) (hsid : sid < 2 ^ 32) (ops : List Op)
+    (hcount : (run Sess.client ops).1.length ≤ 2 ^ 32)
+    (ws : List Wrap) (hwl : ws.length = (run Sess.client ops).1.length)
+    (hws : ∀ p ∈ (run Sess.client ops).1.zip ws, p.2.ok p.1.le)
+    (mine : List (Spec.Segment × Bool)) (hmine : wrapAll true sid (run Sess.client ops).1 ws = some mine)
+    (others l : List (Spec.Segment × Bool))
+    (ho : ∀ x ∈ others, x.1.wf ∧ TcpSession.Spec.Meta.sessionID x.1.md ≠ sid) (hm : Merge mine others l)
+    (t : Spec.Tx) (hk : t.key.length = 32) (hn : t.nonce.length = 24) (cands : List Bytes)
+    (hc : ∀ k ∈ cands, k.length = 32) (hsync : Spec.InSyncFor A t (Spec.Rx.new cands) (Spec.firstMeta l))
+    (bytes : Bytes) (hs : Spec.sealAll A t l = some bytes) (chunks : List Bytes) (hch : chunks.flatten = bytes)
+    (es : List Ev)
+    (harr : arrivals es = TcpSession.forSession sid (chunks.foldl (Spec.feed A) (Spec.Rx.new cands)).out) :
+    (chunks.foldl (Spec.feed A) (Spec.Rx.new cands)).dead = none ∧
+    TcpSession.forSession sid (chunks.foldl (Spec.feed A) (Spec.Rx.new cands)).out = (run Sess.client ops).1 ∧
+    (runEv Sess.server es).1.flatten ++ (runEv Sess.server es).2.pending = accepted Sess.client ops ∧
+    (runEv Sess.server es).2.inErr = false ∧
+    ((∃ g ∈ (run Sess.client ops).1, g.kind = .closeReq) → (runEv Sess.server es).2.st = .closed) := by
+  have := tcp_direction_end_to_end A hA true sid hsid [] Sess.client (by decide) rfl rfl (by simp) ops
+    (by simpa using hcount) ws (by simpa using hwl) (by simpa using hws) mine (by simpa using hmine) others l ho hm
+    t hk hn cands hc hsync bytes hs chunks hch Sess.server rfl rfl (by decide) (by decide) rfl es harr
+  simpa using this
+
+open Mieru.TcpSession in
+/-- **Server → client.**  The server session is handed to the application by `Accept` BEFORE its
+    input loop has processed the open request, so `ops` is any program of `Write` / `Close` calls
+    with the processing of the open request (`Op.accept`, which queues the open-session response)
+    at ANY position among them — the application's first writes may be numbered before the
+    response.  `r0` is the client session in any state in which it has not yet received anything
+    (it may have written any amount, it may never have read).  Conclusion as above, for the other
+    direction — both directions hold at once, each under its own hypotheses, because they share no
+    state but the key. -/
+theorem tcp_server_to_client_end_to_end (A : Spec.AeadFns) (hA : Spec.AeadLaws32 A)
+    (sid : Nat) (hsid : sid < 2 ^ 32) (ops : List Op)
+    (hcount : (run Sess.server ops).1.length ≤ 2 ^ 32)
+    (ws : List Wrap) (hwl : ws.length = (run Sess.server ops).1.length)
+    (hws : ∀ q ∈ (run Sess.server ops).1.zip ws, q.2.ok q.1.le)
+    (mine : List (Spec.Segment × Bool)) (hmine : wrapAll false sid (run Sess.server ops).1 ws = some mine)
+    (others l : List (Spec.Segment × Bool))
+    (ho : ∀ x ∈ others, x.1.wf ∧ TcpSession.Spec.Meta.sessionID x.1.md ≠ sid) (hm : Merge mine others l)
+    (t : Spec.Tx) (hk : t.key.length = 32) (hn : t.nonce.length = 24) (cands : List Bytes)
+    (hc : ∀ k ∈ cands, k.length = 32) (hsync : Spec.InSyncFor A t (Spec.Rx.new cands) (Spec.firstMeta l))
+    (bytes : Bytes) (hs : Spec.sealAll A t l = some bytes) (chunks : List Bytes) (hch : chunks.flatten = bytes)
+    (r0 : Sess) (hr1 : r0.nextRecv = 0) (hr2 : r0.pending = []) (hr3 : r0.st ≠ .closed)
+    (hr4 : r0.closeRequested = true → r0.st = .closed) (hr5 : r0.inErr = false)
+    (es : List Ev)
+    (harr : arrivals es = TcpSession.forSession sid (chunks.foldl (Spec.feed A) (Spec.Rx.new cands)).out) :
+    (chunks.foldl (Spec.feed A) (Spec.Rx.new cands)).dead = none ∧
+    TcpSession.forSession sid (chunks.foldl (Spec.feed A) (Spec.Rx.new cands)).out = (run Sess.server ops).1 ∧
+    (runEv r0 es).1.flatten ++ (runEv r0 es).2.pending = accepted Sess.server ops ∧
+    (runEv r0 es).2.inErr = false ∧
+    ((∃ g ∈ (run Sess.server ops).1, g.kind = .closeReq) → (runEv r0 es).2.st = .closed) := by
+  have := tcp_direction_end_to_end A hA false sid hsid [] Sess.server (by decide) rfl rfl (by simp) ops
+    (by simpa using hcount) ws (by simpa using hwl) (by simpa using hws) mine (by simpa using hmine) others l ho hm
+    t hk hn cands hc hsync bytes hs chunks hch r0 hr1 hr2 hr3 hr4 hr5 es harr
+  simpa using this
+
+open Mieru.TcpSession in
+/-- **A reader that sees end-of-stream has read everything**: `Read` reports EOF only when
+    nothing is pending, so in the situation of the theorems above (bytes read ++ pending = bytes
+    written) the bytes read are all the bytes the peer wrote before it closed. -/
+theorem tcp_eof_means_everything (r : Sess) (n : Nat) (r' : Sess) (readSoFar written : Bytes)
+    (hinv : readSoFar ++ r.pending = written) (h : read r n = (.eof, r')) : readSoFar = written := by
+  rw [← hinv, read_eof r r' n h, List.append_nil]
+
+open Mieru.TcpSession in
+/-- **A short read ends on a segment boundary**: a `Read` that returns fewer bytes than its buffer
+    holds has taken everything that had arrived, so the bytes delivered so far are exactly the
+    payloads of the segments that arrived so far.  (This is what the harness's trace acceptor
+    `acceptTrace` checks on the real `Session.Read`.) -/
+theorem short_read_ends_on_segment_boundary (delivered : Bytes) (arrived : List TcpSession.Seg) (s s' : Sess)
+    (n : Nat) (b : Bytes) (hinv : delivered ++ s.pending = (arrived.map (·.payload)).flatten)
+    (h : read s n = (.data b, s')) (hlt : b.length < n) :
+    delivered ++ b = (arrived.map (·.payload)).flatten ∧ s'.pending = [] := by
+  obtain ⟨h1, _, h3⟩ := (read_spec s n).1 b s' h
+  have := h3 hlt
+  rw [this, List.append_nil] at h1
+  exact ⟨by rw [h1]; exact hinv, this⟩
+
+open Mieru.TcpSession in
+/-- **The open-request piggyback boundary** (1024 / 1025, and never with low entropy), for every
+    first write of a client session: at most 1024 bytes without low entropy travel in the open
+    request alone; otherwise the open request is empty and all bytes follow as data segments. -/
+theorem piggyback_boundary (lo : Option LE) (les : Nat → Option LE) (b : Bytes) :
+    (lo = none → b.length ≤ 1024 → b ≠ [] → (write Sess.client lo les b).1 = [⟨.openReq, 0, 0, none, b⟩]) ∧
+    ((lo ≠ none ∨ 1024 < b.length ∨ b = []) →
+      (write Sess.client lo les b).1 = ⟨.openReq, 0, 0, none, []⟩ :: dataSegs les 1 b) := by
+  constructor
+  · intro h1 h2 h3
+    have hp : piggy lo b = b := by simp [piggy, h1, h2, maxOpenPayload]
+    simp [write, Sess.client, Sess.open, hp, h3]
+  · intro h
+    have hp : piggy lo b = [] := by
+      unfold piggy
+      rcases h with h | h | h
+      · cases lo with
+        | none => exact absurd rfl h
+        | some l => simp
+      · rw [if_neg]; simp only [maxOpenPayload]; omega
+      · simp [h]
+    simp [write, Sess.client, Sess.open, hp]
+
+open Mieru.TcpSession in
+/-- **The fragment boundaries of the stream transport**: `maxFragmentSize` for low entropy off and
+    every mode, as regenerated from the current source (`Gen.Arith.maxFragmentSize`, any MTU), is the
+    model's `fragSize`: 32768 bytes, 32764 in mode 1. -/
+theorem fragment_size_matches_code (mtu : Int) (rot : Nat) :
+    Gen.Arith.maxFragmentSize mtu Gen.streamTransport 0 = some ((fragSize none : Nat) : Int) ∧
+    Gen.Arith.maxFragmentSize mtu Gen.streamTransport 1 = some ((fragSize (some ⟨1, rot⟩) : Nat) : Int) ∧
+    Gen.Arith.maxFragmentSize mtu Gen.streamTransport 2 = some ((fragSize (some ⟨2, rot⟩) : Nat) : Int) ∧
+    Gen.Arith.maxFragmentSize mtu Gen.streamTransport 3 = some ((fragSize (some ⟨3, rot⟩) : Nat) : Int) ∧
+    Gen.Arith.maxFragmentSize mtu Gen.streamTransport 4 = some ((fragSize (some ⟨4, rot⟩) : Nat) : Int) ∧
+    fragSize none = 32768 ∧ fragSize (some ⟨1, rot⟩) = 32764 ∧ fragSize (some ⟨2, rot⟩) = 32768 ∧
+    fragSize (some ⟨3, rot⟩) = 32768 ∧ fragSize (some ⟨4, rot⟩) = 32768 := by
+  have f0 : fragSize none = 32768 := rfl
+  have f1 : fragSize (some ⟨1, rot⟩) = 32764 := rfl
+  have f2 : fragSize (some ⟨2, rot⟩) = 32768 := rfl
+  have f3 : fragSize (some ⟨3, rot⟩) = 32768 := rfl
+  have f4 : fragSize (some ⟨4, rot⟩) = 32768 := rfl
+  rw [f0, f1, f2, f3, f4]
+  refine ⟨?_, ?_, ?_, ?_, ?_, rfl, rfl, rfl, rfl, rfl⟩ <;>
+    simp [Gen.Arith.maxFragmentSize, Gen.Arith.maxFragmentSizeInternal,
+      Gen.Arith.buildLowEntropyParams_sourceBytesPerChunk, Gen.Arith.buildLowEntropyParams_halfMaskOnes,
+      Gen.maxPDU, Gen.lowEntropyChunkLen, Gen.streamTransport] <;> omega
+
+/-! ## Tie (T): the statements of session.go / underlay_stream.go the session model rests on,
+    regenerated from the current source on every run (`tools/goextract/wire.go` → `Mieru.Gen.Wire`) -/
+
+open Mieru.TcpSession in
+/-- **`writeChunk`'s fragment count is the model's**: the arithmetic `nFragment := 1; if len(b) >
+    fragmentSize { nFragment = (len(b)-1)/fragmentSize + 1 }`, translated from the current source,
+    gives exactly the number of segments the model's `writeChunk` queues, for every non-empty chunk
+    and every low-entropy decision; and each fragment has `min(fragmentSize, len(ptr))` bytes. -/
+theorem fragment_count_matches_code (seq : Nat) (le : Option LE) (b : Bytes) (hb : b ≠ []) :
+    (((writeChunk seq le b).length : Nat) : Int) = Gen.Wire.writeChunkNFragment b.length (fragSize le) ∧
+    ∀ rest : Bytes, rest ≠ [] →
+      (((pieces (fragSize le) rest.length rest).head?.map (·.length)).getD 0 : Int)
+        = Gen.Wire.writeChunkPartLen (fragSize le) rest.length := by
+  have hf := fragSize_pos le
+  have hn : 1 ≤ b.length := List.length_pos_iff.mpr hb
+  constructor
+  · rw [writeChunk, numberFrags_length, pieces_length _ hf _ _ (Nat.le_refl _)]
+    unfold Gen.Wire.writeChunkNFragment
+    by_cases h : (b.length : Int) > (fragSize le : Int)
+    · rw [if_pos h]
+      have e2 : b.length + fragSize le - 1 = (b.length - 1) + fragSize le := by omega
+      rw [e2, Nat.add_div_right _ hf, Int.tdiv_eq_ediv_of_nonneg (by omega)]
+      have : ((b.length : Int) - 1) = ((b.length - 1 : Nat) : Int) := by omega
+      rw [this, ← Int.natCast_ediv]
+      simp
+    · rw [if_neg h]
+      rw [Nat.div_eq_of_lt_le (k := 1) (by omega) (by omega)]
+      rfl
+  · intro rest hr
+    have hpos : 0 < rest.length := List.length_pos_iff.mpr hr
+    cases hl : rest.length with
+    | zero => omega
+    | succ n =>
+      simp only [pieces, hr, if_false, List.head?_cons, Option.map_some, Option.getD_some, List.length_take,
+        Gen.Wire.writeChunkPartLen]
+      omega
+
+/-- **The statements the model transcribes, as they stand in the current source.**
+    `Session.Write` piggybacks iff `!sendLowEntropy && len(b) <= MaxSessionOpenPayload` and queues a
+    COPY of the caller's bytes (`make` + `copy`, never the caller's slice); `writeChunk` copies each
+    part, numbers fragments `nFragment-1 … 0` and takes one sequence number per fragment;
+    `Session.Read` cuts the unread tail at `copied` (the bytes taken from THIS segment), never at the
+    call's running total; `closeWithError` builds the close request when the session is ATTACHED or
+    ESTABLISHED (`closeFlushes`); `inputData` insists on `seq == streamNextRecv` and advances by one;
+    `writeOneSegment` lays a data segment out as metadata, padding 1, payload (low-entropy encoded in
+    place), padding 2, and a session segment as metadata, payload, padding. -/
+theorem session_code_facts :
+    Gen.Wire.writePiggybackCondition = "!sendLowEntropy && len(b) <= MaxSessionOpenPayload" ∧
+    Gen.Wire.writeOpenPayloadAssignments = ["make([]byte, len(b))"] ∧
+    Gen.Wire.writeCopyCalls = ["copy(seg.payload, b)"] ∧
+    Gen.Wire.writeChunkPayloadField = "make([]byte, partLen)" ∧
+    Gen.Wire.writeChunkCopyCalls = ["copy(seg.payload, part)"] ∧
+    Gen.Wire.writeChunkLoop = "i := nFragment - 1; i >= 0; i--" ∧
+    Gen.Wire.writeChunkFragmentField = "uint8(i)" ∧
+    Gen.Wire.writeChunkSeqField = "s.nextSend.Load()" ∧
+    Gen.Wire.writeChunkNextSendCalls = ["s.nextSend.Load()", "s.nextSend.Add(1)"] ∧
+    Gen.Wire.readUnreadBufAssignments = ["nil", "s.unreadBuf[copied:]", "seg.payload[copied:]"] ∧
+    Gen.Wire.readCopiedAssignments = ["copy(b[n:], s.unreadBuf)", "copy(b[n:], seg.payload)"] ∧
+    Gen.Wire.closeFlushCondition = "s.isState(sessionAttached) || s.isState(sessionEstablished)" ∧
+    (TcpSession.closeFlushes .attached = true ∧ TcpSession.closeFlushes .established = true ∧
+      TcpSession.closeFlushes .init = false ∧ TcpSession.closeFlushes .closed = false) ∧
+    Gen.Wire.inputDataOrderCheck = "expected := s.streamNextRecv.Load(); seq != expected" ∧
+    Gen.Wire.inputDataAdvance = "s.streamNextRecv.Add(1)" ∧
+    Gen.Wire.writeOneSegmentSessionParts = ["t.send.Encrypt(dataToSend[:0], plaintextMetadata)",
+      "t.send.Encrypt(dataToSend[offset:offset], seg.payload)", "copy(dataToSend[offset:], padding)",
+      "t.writeWithPossibleFragment(dataToSend)"] ∧
+    Gen.Wire.writeOneSegmentDataParts = ["t.send.Encrypt(dataToSend[:0], plaintextMetadata)",
+      "copy(dataToSend[offset:], padding1)", "t.send.Encrypt(dataToSend[offset:offset], seg.payload)",
+      "encodeLowEntropyEncryptedPayload(dataToSend[offset:offset+encryptedPayloadLen], das)",
+      "copy(dataToSend[offset:], encryptedPayload)", "copy(dataToSend[offset:], padding2)",
+      "t.conn.Write(dataToSend)"] := by decide
+
+/-! ## Non-vacuity of the composed theorems: a concrete connection
+
+A client writes 3 bytes (they travel in the open request), then closes without ever reading; a
+data segment of ANOTHER session (id 8) travels between the two segments; the network delivers one
+byte at a time; the server application reads 2 bytes before the close request has arrived and the
+rest afterwards.  Every hypothesis of `tcp_client_to_server_end_to_end` is met (toy AEAD of C09). -/
+namespace Example
+open Mieru.TcpSession
+
+def prog : List Op := [.write none (fun _ => none) [1, 2, 3], .close]
+def w : Wrap := ⟨29836258, 0, 0, [], [5, 5], 0, false⟩
+def key : Bytes := List.replicate 32 1
+def t0 : Spec.Tx := ⟨key, List.replicate 24 7, false⟩
+def other : Spec.Segment × Bool :=
+  (⟨.data ⟨6, 29836258, 8, 1, 0, 256, 0, 1, 2, 0⟩, [0xEE, 0xFF], [9], []⟩, false)
+
+example : (run Sess.client prog).1 = [⟨.openReq, 0, 0, none, [1, 2, 3]⟩, ⟨.closeReq, 1, 0, none, []⟩] ∧
+    accepted Sess.client prog = [1, 2, 3] := by decide
+
+example : ∃ m0 m1 bytes,
+    wrapAll true 7 (run Sess.client prog).1 [w, w] = some [m0, m1] ∧
+    Spec.sealAll Spec.toyAead t0 [m0, other, m1] = some bytes ∧
+    -- the conclusion of the theorem for one-byte chunks and a reader that interleaves with arrivals
+    ((runEv Sess.server [.input ⟨.openReq, 0, 0, none, [1, 2, 3]⟩, .read 2, .input ⟨.closeReq, 1, 0, none, []⟩,
+        .read 10, .read 10]).1 = [[1, 2], [3]]) := by
+  refine ⟨_, _, _, rfl, rfl, by decide⟩
+
+/-- the theorem applied: all its hypotheses hold for this connection -/
+example (mine : List (Spec.Segment × Bool)) (hmine : wrapAll true 7 (run Sess.client prog).1 [w, w] = some mine)
+    (m0 m1 : Spec.Segment × Bool) (hm01 : mine = [m0, m1])
+    (bytes : Bytes) (hs : Spec.sealAll Spec.toyAead t0 [m0, other, m1] = some bytes)
+    (es : List Ev)
+    (harr : arrivals es = TcpSession.forSession 7
+      ((bytes.map (fun b => [b])).foldl (Spec.feed Spec.toyAead) (Spec.Rx.new [key])).out) :
+    (runEv Sess.server es).1.flatten ++ (runEv Sess.server es).2.pending = [1, 2, 3] ∧
+    (runEv Sess.server es).2.st = .closed := by
+  have hws : ∀ p ∈ (run Sess.client prog).1.zip [w, w], p.2.ok p.1.le := by
+    intro p hp
+    have : p = (⟨.openReq, 0, 0, none, [1, 2, 3]⟩, w) ∨ p = (⟨.closeReq, 1, 0, none, []⟩, w) := by
+      simpa [prog, run, write, close, Sess.client, Sess.open, piggy, maxOpenPayload, closeFlushes] using hp
+    rcases this with rfl | rfl <;>
+      exact ⟨by decide, by decide, by decide, by decide, by decide, by decide, fun l h => by cases h⟩
+  have hsync : Spec.InSyncFor Spec.toyAead t0 (Spec.Rx.new [key]) (Spec.firstMeta [m0, other, m1]) := by
+    left
+    refine ⟨rfl, rfl, by decide, by simp [Spec.Rx.new, t0], ?_⟩
+    intro k hk hne
+    simp only [Spec.Rx.new, List.mem_singleton] at hk
+    exact absurd hk hne
+  have := tcp_client_to_server_end_to_end Spec.toyAead Spec.toy_laws32 7 (by decide) prog (by decide) [w, w] (by decide) hws
+    mine hmine [other] [m0, other, m1]
+    (by
+      intro x hx
+      simp only [List.mem_singleton] at hx
+      subst hx
+      exact ⟨⟨by decide, by decide, by decide, by decide, rfl⟩, by decide⟩)
+    (by rw [hm01]; exact .left _ (.right _ (.left _ .nil))) t0 (by decide) (by decide) [key]
+    (by intro k hk; simp only [List.mem_singleton] at hk; subst hk; decide) hsync bytes hs
+    (bytes.map (fun b => [b])) (by simp [List.flatten_eq_flatMap, List.flatMap_map]) es harr
+  obtain ⟨_, _, h3, _, h5⟩ := this
+  exact ⟨by rw [h3]; decide, h5 ⟨⟨.closeReq, 1, 0, none, []⟩, by decide, rfl⟩⟩
+
+-- a server application that writes before its input loop has processed the open request: the data
+-- segment is numbered 0 and the open-session response 1; the client still reads exactly the bytes
+example : (run Sess.server [.write none (fun _ => none) [7, 7], .accept [], .write none (fun _ => none) [8], .close]).1
+    = [⟨.data, 0, 0, none, [7, 7]⟩, ⟨.openResp, 1, 0, none, []⟩, ⟨.data, 2, 0, none, [8]⟩, ⟨.closeReq, 3, 0, none, []⟩] ∧
+    accepted Sess.server [.write none (fun _ => none) [7, 7], .accept [], .write none (fun _ => none) [8], .close]
+      = [7, 7, 8] := by decide
+
+-- the piggyback boundary, instantiated: 1024 bytes ride in the open request, 1025 do not
+example (b : Bytes) (h : b.length = 1024) (les : Nat → Option LE) :
+    (write Sess.client none les b).1 = [⟨.openReq, 0, 0, none, b⟩] :=
+  (piggyback_boundary none les b).1 rfl (by omega) (by intro h0; rw [h0] at h; cases h)
+example (b : Bytes) (h : b.length = 1025) (les : Nat → Option LE) :
+    (write Sess.client none les b).1 = ⟨.openReq, 0, 0, none, []⟩ :: dataSegs les 1 b :=
+  (piggyback_boundary none les b).2 (Or.inr (Or.inl (by omega)))
+-- with low entropy even one byte does not ride in the open request
+example (les : Nat → Option LE) :
+    (write Sess.client (some ⟨1, 0⟩) les [0x42]).1 = ⟨.openReq, 0, 0, none, []⟩ :: dataSegs les 1 [0x42] :=
+  (piggyback_boundary _ les _).2 (Or.inl (by simp))
+
+end Example
 
 end Mieru.C01
